@@ -30,6 +30,7 @@ pub fn one_case(m: &Model, origin: &str) -> Option<Case> {
     );
     let missing = k.cons.wincons.iter().filter(|w| k.cons.get_glass(w.glass).is_none() || k.cons.get_frame(w.frame).is_none()).count();
     Some(Case {
+        post: String::new(),
         term,
         json: json!({"origin": origin, "cons": serde_json::to_value(&k.cons).unwrap(), "props_wincons": serde_json::to_value(&p.wincons).unwrap(), "missing_glass_or_frame": missing}),
         nontrivial: !k.cons.wincons.is_empty(),
